@@ -19,7 +19,9 @@ against, so that behaviour-preserving spellings coincide:
   exactly once (clang dumps a lambda body twice, and a generic lambda as an
   uninstantiated pattern plus its specialisations).
 
-Python part: reaching-definition helpers shared by the C04 rules.
+Value locals whose definition reads storage (`std::size_t n = num_nodes_;`)
+are never substituted - the read would move to the place of use; using such a
+local is an AnalysisError.
 """
 from sa import cxx
 from sa.core import AnalysisError
